@@ -349,7 +349,13 @@ theorem hyp_validate_fee {hrp : String} {orb tok rec_ hook : Bytes} {domain : Na
   repeat' (first | (cases h; done) | split at h)
   rename_i h1 h2
   simp only [Bool.or_eq_false_iff, decide_eq_false_iff_not]
-  exact ⟨h1, by simpa using h2⟩
+  refine ⟨h1, ?_⟩
+  cases hz : (feeAmt != 0) with
+  | false => rfl
+  | true =>
+    cases hv : validDenom feeDenom with
+    | true => simp
+    | false => simp [hz, hv] at h2
 
 theorem forwarderHandle_noPanic (cfg : Cfg) (π : OneofOrder) (φ : Faults) (o : OrbState) (c : Ctx) (t : TransferAttrs) (f : Forwarding) :
     (forwarderHandle (appWiring cfg π) φ o c t f).NoPanic := by
